@@ -3,15 +3,19 @@ from contracts import release as R
 from contracts import state as S
 from contracts import timekeeper as K
 
-UNITS = list(R.RELEASE_UNITS) + [S.Append("arrays"), S.Append("broadcast"), K.TKTime2Step()]
+from contracts import release_init as RI
+
+UNITS = list(R.RELEASE_UNITS) + list(RI.RELEASE_INIT_UNITS) + [S.Append("arrays"), S.Append("broadcast"), K.TKTime2Step()]
 LEMMAS = []
 NATIVE = [dict(name="release tables x windows x discrete/continuous x forward/reversed on the real ParticleReleaser/State/TimeKeeper", harness="release_bounded", kind="bounded")]
 LEVEL = "other"
-LEVEL_TEXT = ("Proved: ParticleReleaser.update/__next__ over abstract release groups -- under the releaser invariant (_index == number of groups with an earlier step, steps strictly "
-              "increasing) a release step appends exactly the rows of the group scheduled for that step, each repeated mult times in file-row order, without the mult column, and "
-              "nothing otherwise; counters and invariant are maintained; State.append hands out the pids (C05); time2step is floor division (C13). NOT proved (bounded): the pandas "
-              "pipeline of __init__ (window filters, discretize, group construction, clean_position, read_release_file), which establishes the invariant and the group/step correspondence.")
-LEVEL_NOTE = "pandas is external: to_records/repeat/DataFrame/drop/groupby contracts assumed; __init__, discretize, read_release_file, clean_position only by the bounded sweep (360 set-ups quick)"
+LEVEL_TEXT = ("Proved over a ghost release table (pandas operations under stated assumed contracts): the constructor keeps exactly the rows whose release time lies in the window "
+              "(mirrored when reversed), defaults mult to 1, refuses exactly when no row is left, computes the steps with time2step and orders the release groups in simulation order "
+              "(ascending time forward, descending reversed) -- the order in which update() consumes them; clean_position uses given X, Y, converts lon/lat with grid.ll2xy in the right "
+              "order and refuses rows without a position; read_release_file passes the documented parsing options and turns unreadable/missing files into SystemExit(3); update/__next__ "
+              "append exactly the rows of the group scheduled for the step, each repeated mult times in file-row order, without the mult column, and maintain the releaser invariant. "
+              "NOT proved (bounded): continuous mode (discretize: arange/join/ffill/explode) and the real pandas behaviour behind the assumed contracts.")
+LEVEL_NOTE = "pandas external: filter/len/unique/groupby/to_records/repeat/DataFrame/drop/rename contracts assumed and exercised by the bounded sweep (360 set-ups); discretize (continuous release) bounded only"
 TECHNIQUE = "contract-based deductive verification of update/__next__ over ghost release groups; bounded exhaustive run-time contract for the pandas pipeline"
 EXPLANATION = "Release step logic proved over ghost groups; the table pipeline (decisive for windows and continuous mode) is bounded, hence level 'other'."
 ASSUMPTIONS = ["release tables sorted in simulation order with times on the model time grid (the property's quantifier)"]
